@@ -16,6 +16,10 @@ def domain_fns(c):
 
     if isinstance(c, dg.G):
         return dg.brute_terms, dg.brute_empty
+    from mc import domain_r as dr
+
+    if isinstance(c, dr.R):
+        return dr.brute_terms, dr.brute_empty
     return dw.brute_terms, dw.brute_empty
 
 
